@@ -91,6 +91,9 @@ func c14Body(p c14Params) func() explore.SchedOutcome {
 	if p.Harness == "E" {
 		return func() explore.SchedOutcome { return c14E(p) }
 	}
+	if p.Harness == "F" {
+		return func() explore.SchedOutcome { return c14F(p) }
+	}
 	return func() explore.SchedOutcome { return c14B(p) }
 }
 
@@ -498,6 +501,48 @@ func c14E(p c14Params) (out explore.SchedOutcome) {
 	return out
 }
 
+// Harness F (notice about a user who leaves): an administrator edits the account of a connected user who hangs up at
+// the same moment (every session of the account is announced to everybody).  Whatever happens to that notice, a
+// bystander's next request is answered, once.
+func c14F(p c14Params) (out explore.SchedOutcome) {
+	vrt.BeginSetup()
+	w := world.New(world.Cfg{Accounts: []world.Acct{{Login: "guest", Name: "Guest", Access: world.AllAccess}, {Login: "admin", Name: "Admin", Password: "secret", Access: world.AllAccess}, {Login: "vic", Name: "Vic", Password: "vp", Access: world.Bits(ref.PReadChat)}}})
+	defer w.Close()
+	obs, ro := w.Connect("10.0.0.1:1001", "guest", "", "obs")
+	adm, ra := w.Connect("10.0.0.2:1002", "admin", "secret", "adm")
+	x, rx := w.Connect("10.0.0.3:1003", "vic", "vp", "vic")
+	if ro == nil || ra == nil || rx == nil {
+		out.Violations = append(out.Violations, explore.SchedV{Signature: "C14/F/setup-login-failed", Detail: "login got no reply"})
+		return out
+	}
+	obs.New()
+	acc := world.Bits(ref.PReadChat, ref.PSendChat)
+	adm.Send(ref.Tx{Type: ref.TSetUser, Fields: []ref.Fld{ref.F(ref.FUserLogin, ref.Obfuscate([]byte("vic"))), ref.FS(ref.FUserName, "Vic"), ref.F(ref.FUserPassword, []byte{0}), ref.F(ref.FUserAccess, acc[:])}})
+	x.Hangup()
+	vrt.EndSetup()
+	vrt.Settle(10 * time.Second)
+	id := obs.Req(ref.TGetUserNameList)
+	vrt.Settle(10 * time.Second)
+	obs.Poll()
+	n := 0
+	for _, t := range obs.Inbox {
+		if t.IsReply == 1 && t.ID == id {
+			n++
+		}
+	}
+	if n != 1 {
+		out.Violations = append(out.Violations, explore.SchedV{Signature: fmt.Sprintf("C14/F/correlation/%d-replies/user-list", n), Detail: fmt.Sprintf("after an account edit overlapped the departure of one of the account's sessions, a bystander's user-list request got %d replies; blocked: %v", n, vrt.Blocked())})
+	}
+	if obs.ParseErr != nil || len(obs.Unparsed()) != 0 {
+		out.Violations = append(out.Violations, explore.SchedV{Signature: "C14/F/framing/stream-not-a-concatenation-of-whole-transactions", Detail: fmt.Sprint(obs.ParseErr)})
+	}
+	for _, pn := range vrt.S.Panics() {
+		out.Violations = append(out.Violations, explore.SchedV{Signature: "C14/F/panic/" + vrt.PanicSite(pn), Detail: pn})
+	}
+	out.Canon = fmt.Sprint(n)
+	return out
+}
+
 func runC14(w *explore.Worker) {
 	type job struct {
 		p     c14Params
@@ -557,6 +602,8 @@ func runC14(w *explore.Worker) {
 	jobs = append(jobs, job{c14Params{Harness: "D"}, boundB})
 	// harness E: requests about a user who leaves at the same moment
 	jobs = append(jobs, job{c14Params{Harness: "E"}, boundB})
+	// harness F: a notice about a user who leaves at the same moment
+	jobs = append(jobs, job{c14Params{Harness: "F"}, boundB})
 	maxBound := 0
 	c14Baseline(w)
 	for _, j := range jobs {
